@@ -338,6 +338,15 @@ def check_valid(case):
         for lab in args_labels(args):
             if lab not in xs:
                 xs.append(lab)
+    fork = case.get("fork")
+    if fork:
+        # a copy is forked off; the copy (or the model, the copy being judged) gets one more gate: the verdicts of
+        # the object that was not extended stay those of its own constraints
+        H2 = {"copy": lambda m: m.copy(), "ctor": lambda m: type(m)(m), "plus0": lambda m: m + 0,
+              "times1": lambda m: 1 * m}[fork["via"]](H)
+        grown, kept = (H2, H) if fork["grow"] == "copy" else (H, H2)
+        call(grown, fork["method"], fork["args"], 1)
+        H = kept
     ptabs = [(rel, table(P, xs)) for rel, P, _, _ in case["cons"]]
     for i in range(1 << len(xs)):
         x = assignment(i, xs)
@@ -351,3 +360,26 @@ def check_valid(case):
         if bool(got) != ok:
             return Fail("is_solution_valid(%s) = %r, expected %r" % (fmt_x(x), got, ok), key="is_solution_valid")
     return None
+
+
+def _gen_valid_forks(ctx):
+    vias = ("copy", "ctor", "plus0", "times1")
+    j = 0
+    for i, case in enumerate(_gen_valid(ctx)):
+        if i % 3:
+            continue
+        method, args, _ = case["logic"][0]
+        # the extra gate: the complementary gate on the same operands
+        comp = {"OR": "NOR", "AND": "NAND", "XOR": "XNOR", "NAND": "AND", "NOR": "OR", "XNOR": "XOR", "BUFFER": "NOT",
+                "NOT": "BUFFER"}
+        m2 = ("eq_" + comp[method[3:]]) if method.startswith("eq_") else comp[method]
+        yield dict(case, fork={"via": vias[j % 4], "grow": ("copy", "original")[(j // 4) % 2], "method": m2, "args": args})
+        j += 1
+
+
+@clause("C06.is_solution_valid_forked_copies", "C06", gen=_gen_valid_forks, nontrivial=_nontrivial_valid)
+def check_valid_forks(case):
+    """C06.is_solution_valid for a PCBO from which a copy was forked (copy(), PCBO(model), model + 0, 1 * model) after
+    its gates were added; one of the two objects then gets one more gate on the operands of the first gate (its
+    complement where there is one): the verdicts of the other object stay those of its own gates."""
+    return check_valid(case)
